@@ -113,14 +113,21 @@ class Cell(NullCell):
 
     def get_representation(self) -> bytes:
         # CellRepr(c) = CellRepr∞ (c) = d1d2 + data + depth(r_i) for all i + hash(r_i) for all i
+        # For a cell of level > 0 (a cell above a pruned branch) the representation at its own level carries the hash
+        # of the level below instead of the data, and Merkle cells take their children one level up (see calculate_hashes)
         descs = self._descriptors
         data = self._data_bytes
+        if len(self._hashes) > 1:
+            data = self._hashes[-2]
+        level = self.level_mask.get_level()
+        if self.type_ in (CellTypes.merkle_proof, CellTypes.merkle_update):
+            level += 1
         result = descs + data
         depths = b''
         hashes = b''
         for ref in self.refs:
-            depths += ref._depths[-1].to_bytes(2, 'big')
-            hashes += ref.hash
+            depths += ref.get_depth(level).to_bytes(2, 'big')
+            hashes += ref.get_hash(level)
         return result + depths + hashes
 
     @property
